@@ -2,7 +2,7 @@
 // transport.TarsClient) against a scripted raw TCP peer and records traces for the ClientMux specification
 // (checks C08 and C09).
 //
-//	muxdrive trace  -seed S -classes a,b -per N -maxk K -shard i/n -out FILE [-only IDX] [-list]
+//	muxdrive trace  -seed S -classes a,b -per N -maxk K -shard i/n -out FILE [-only IDX] [-list] [-filter KIND] [-stop-on-hung]
 //	muxdrive idseq  -out FILE            sequential draws from the real id generator around the wrap points
 //	muxdrive probe                        prints one line per environment capability (black-hole listener)
 package main
@@ -35,8 +35,10 @@ func main() {
 		out := fs.String("out", "mux.ndjson", "output file")
 		only := fs.Int("only", -1, "run only the scenario with this index")
 		list := fs.Bool("list", false, "print the scenario plan and exit")
+		filter := fs.String("filter", "none", "client filters registered in this process: none|pre|post|prepost|legacy|mw")
+		stop := fs.Bool("stop-on-hung", false, "run no further scenario in this process once a call has not returned")
 		fs.Parse(os.Args[2:])
-		err = cmdTrace(*seed, *cls, *per, *maxK, *shard, *out, *only, *list)
+		err = cmdTrace(*seed, *cls, *per, *maxK, *shard, *out, *only, *list, *filter, *stop)
 	case "idseq":
 		fs := flag.NewFlagSet("idseq", flag.ExitOnError)
 		out := fs.String("out", "idseq.ndjson", "output file")
